@@ -10,8 +10,8 @@ for d in sorted(glob.glob(f'/verif/seeded/{pid}-*/meta.json')):
     m=json.load(open(d)); prev.append(f"  - {m['title']} (needs: {m['needs_to_manifest']})")
 extra="\nALREADY DONE in an earlier round (do NOT repeat these or close variants; choose different code sites and different mechanisms,\nand prefer clauses of the property that the list below does not touch):\n"+"\n".join(prev)+"\n"
 t=t.replace("YOUR JOB:", extra+"\nYOUR JOB:")
-t=(t.replace('{ID}',pid).replace('{DIR}','/tmp/seed2/'+pid).replace('{TITLE}',p['title']).replace('{STATEMENT}',p['statement'])
+t=(t.replace('{ID}',pid).replace('{DIR}','/tmp/seed'+os.environ.get('ROUND','2')+'/'+pid).replace('{TITLE}',p['title']).replace('{STATEMENT}',p['statement'])
    .replace('{QUANT}',p['quantifier']['text']).replace('{FILES}',', '.join(p['anchors']['files'])).replace('{N}',n))
-os.makedirs(f'/tmp/seed2/{pid}',exist_ok=True)
-open(f'/tmp/seed2/{pid}/TASK.md','w').write(t)
-print(f'/tmp/seed2/{pid}/TASK.md')
+os.makedirs(f"/tmp/seed{os.environ.get('ROUND','2')}/{pid}",exist_ok=True)
+open(f"/tmp/seed{os.environ.get('ROUND','2')}/{pid}/TASK.md",'w').write(t)
+print(f"/tmp/seed{os.environ.get('ROUND','2')}/{pid}/TASK.md")
